@@ -1,4 +1,5 @@
 import PromProofs.RateFns
+import PromModel.Suites.RateSuite
 /-
   C30 — Counter and delta functions follow the documented algorithms.
 
@@ -217,5 +218,43 @@ theorem resets_le (w : List FSample) : resetsFrom w ≤ w.length - 1 := by
   rw [resets_counts_decreases]
   refine Nat.le_trans (List.length_filter_le _ _) ?_
   simp [List.length_zip]
+
+/-! ### judge ↔ model -/
+
+/-- The judge's independent reset count (written from the documentation) is the model's. -/
+theorem judge_resets_eq_model (w : List FSample) :
+    RateSuite.countAdj RateSuite.docResetF w = resetsFrom w := by
+  induction w with
+  | nil => rfl
+  | cons p rest ih =>
+    cases rest with
+    | nil => rfl
+    | cons c r => simp only [RateSuite.countAdj, resetsFrom, RateSuite.docResetF] at ih ⊢; rw [ih]; congr
+
+/-- The judge's independent change count is the model's. -/
+theorem judge_changes_eq_model (w : List FSample) :
+    RateSuite.countAdj RateSuite.docChangeF w = changesFrom w := by
+  induction w with
+  | nil => rfl
+  | cons p rest ih =>
+    cases rest with
+    | nil => rfl
+    | cons c r =>
+      simp only [RateSuite.countAdj, changesFrom, RateSuite.docChangeF] at ih ⊢
+      rw [ih]; congr 1
+      have hb : (!(FV.eq c.v p.v || FV.isNaN c.v && FV.isNaN p.v)) = (!FV.eq c.v p.v && !(FV.isNaN c.v && FV.isNaN p.v)) := by
+        cases FV.eq c.v p.v <;> cases (FV.isNaN c.v && FV.isNaN p.v) <;> rfl
+      simp only [hb]
+
+/-- The judge's value clause accepts the exact model value itself (tolerance is reflexive). -/
+theorem judge_close_refl (x floor : Rat) : RateSuite.close x x floor = true := by
+  have h0 : x - x = 0 := by grind
+  have he : (0 : Rat) ≤ RateSuite.eps := by decide +kernel
+  have hm : (0 : Rat) ≤ RateSuite.maxR (RateSuite.absR x) floor := by
+    have ha : (0 : Rat) ≤ RateSuite.absR x := by unfold RateSuite.absR; split <;> grind
+    unfold RateSuite.maxR; split <;> grind
+  simp only [RateSuite.close, h0, decide_eq_true_eq]
+  have : RateSuite.absR 0 = 0 := by decide +kernel
+  rw [this]; exact Rat.mul_nonneg he hm
 
 end Prom.C30
